@@ -24,6 +24,7 @@ class OpSim:
         self.reenter_depth = 0
         self.udf_calls = collections.Counter()
         self.open_scans = {}       # scan id -> table   (scans in flight)
+        self.scan_stack = []       # [scan id, last delivered row index], innermost last
         self.scan_rows = collections.Counter()
 
     # -- fault arming --------------------------------------------------
@@ -42,15 +43,23 @@ class OpSim:
     def begin_scan(self, table):
         self.scans += 1
         self.open_scans[self.scans] = table
+        self.scan_stack.append([self.scans, None])
         if len(self.open_scans) > 1:
             self.probes['nested_scans'] += 1
         return self.scans
 
     def end_scan(self, scan, table):
         self.open_scans.pop(scan, None)
+        self.scan_stack = [e for e in self.scan_stack if e[0] != scan]
+
+    def current_rowno(self):
+        return self.scan_stack[-1][1] if self.scan_stack else None
 
     def scan_point(self, scan, table, rowno):
         self.steps += 1
+        for e in self.scan_stack:
+            if e[0] == scan:
+                e[1] = rowno
         a = self.armed
         if a and a['kind'] == 'storage' and not a.get('_fired') and a['table'] == table and a['row'] == rowno \
                 and (a.get('depth') is None or a['depth'] == self.reenter_depth):
